@@ -12,6 +12,7 @@
 //	sig <sighex>                                Signature.ToBigInt
 //	pk <marshalled G2 hex> [k]                  decodePubKey (k: the point is k·G2, checked against go-ethereum's bn256)
 //	cfg <gasLimit> <gasPrice> <chainId> <op>…   history of gp:<v> | gl:<v> | re | tx:<outcomes> on one adaptor
+//	cr <randSeed> <cid>                         dosnode handleCR (hook) on a real adaptor: commit hash vs revealed secret
 //	race <n>                                    two callers on the real adaptor: B queues behind A, A's failures cancel all n endpoints
 package c19
 
@@ -28,7 +29,10 @@ import (
 	"strconv"
 	"strings"
 	"sync"
+	"time"
 
+	"github.com/DOSNetwork/core/dosnode"
+	replog "github.com/DOSNetwork/core/log"
 	"github.com/DOSNetwork/core/onchain"
 	"github.com/DOSNetwork/core/onchain/commitreveal"
 	"github.com/DOSNetwork/core/onchain/dosproxy"
@@ -38,6 +42,7 @@ import (
 	"github.com/ethereum/go-ethereum/accounts/abi"
 	"github.com/ethereum/go-ethereum/common"
 	"github.com/ethereum/go-ethereum/core/types"
+	"github.com/ethereum/go-ethereum/crypto"
 	ethbn "github.com/ethereum/go-ethereum/crypto/bn256/cloudflare"
 
 	"verifharness/internal/chaindouble"
@@ -877,6 +882,92 @@ func execCfg(w []string) (res h.Result) {
 	return
 }
 
+type nullLogger struct{}
+
+func (nullLogger) New(string, interface{}) replog.Logger               { return nullLogger{} }
+func (nullLogger) AddField(string, interface{})                        {}
+func (nullLogger) Debug(string)                                        {}
+func (nullLogger) Info(string)                                         {}
+func (nullLogger) Warn(string)                                         {}
+func (nullLogger) Error(error)                                         {}
+func (nullLogger) Fatal(error)                                         {}
+func (nullLogger) TimeTrack(time.Time, string, map[string]interface{}) {}
+func (nullLogger) Event(string, map[string]interface{})                {}
+
+// cr <randSeed> <cid>: the node's commit-reveal glue (dosnode handleCR, through the hook VerifPHandleCR) on a real
+// adaptor: it draws a secret below randSeed, commits a hash and reveals the secret.  On the two recorded raw
+// transactions: commit before reveal, same cid, and commitment == keccak256(32-byte big-endian word of the secret
+// the reveal carries) — what the contract will check.  (CommitDuration 2^64-1 makes the code's wait
+// `CommitDuration.Uint64()+1` blocks equal 0.)
+func execCR(w []string) (res h.Result) {
+	abis()
+	seed, cid := h.BigDec(w[1]), h.BigDec(w[2])
+	res.Class = "cr"
+	res.Nontrivial = true
+	st, err := chaindouble.NewStack(1, 1, big.NewInt(1), 5000000, 1000000000, nil)
+	if err != nil {
+		res.Impl = "connect-failed " + h.OneLine(err.Error())
+		res.Oracle = "harness-connect-failed: " + h.OneLine(err.Error())
+		return
+	}
+	defer st.Close()
+	node := dosnode.VerifNewNode(nil, nil, st.Adaptor, nil, 0, nullLogger{})
+	ev := &onchain.LogStartCommitReveal{Cid: cid, StartBlock: big.NewInt(99), // the double's head is block 100
+		CommitDuration: new(big.Int).SetUint64(^uint64(0)), RevealDuration: big.NewInt(0), RevealThreshold: big.NewInt(1)}
+	node.VerifPHandleCR(ev, seed)
+	raws := st.RPC[0].RawTxs()
+	var names, cids []string
+	var commitment []byte
+	var secret *big.Int
+	for _, raw := range raws {
+		_, tx, args, name := describeTx(raw, st)
+		if tx == nil {
+			names = append(names, "undecodable")
+			continue
+		}
+		if tx.To() == nil || *tx.To() != st.CR {
+			name = "notcr:" + name
+		}
+		names = append(names, name)
+		nums, _, b32 := flatArgs(args)
+		if len(nums) > 0 {
+			cids = append(cids, nums[0].String())
+		}
+		switch name {
+		case "commit":
+			commitment = b32
+		case "reveal":
+			if len(nums) > 1 {
+				secret = nums[1]
+			}
+		}
+	}
+	match := false
+	lz := 0
+	if secret != nil && commitment != nil {
+		word := make([]byte, 32)
+		sb := secret.Bytes()
+		copy(word[32-len(sb):], sb)
+		lz = 32 - len(sb)
+		match = bytes.Equal(crypto.Keccak256(word), commitment)
+	}
+	res.Impl = fmt.Sprintf("txs=%s cid=%s match=%v", strings.Join(names, ","), strings.Join(cids, ","), match)
+	if seed.Cmp(big.NewInt(1)) == 0 {
+		res.Impl += " commitment=" + h.Hex(commitment)
+	}
+	want := new(big.Int).Mod(cid, new(big.Int).Lsh(big.NewInt(1), 256)).String()
+	switch {
+	case strings.Join(names, ",") != "commit,reveal":
+		res.Oracle = "commit-reveal-sequence: transactions sent: " + strings.Join(names, ",")
+	case len(cids) != 2 || cids[0] != want || cids[1] != want:
+		res.Oracle = "commit-reveal-cid-differs: " + strings.Join(cids, ",") + " want " + want
+	case !match:
+		res.Oracle = fmt.Sprintf("commit-hash-not-of-reveal-word: commitment %s is not keccak256 of the 32-byte word of the secret %s the reveal carries (%d leading zero bytes)", h.Hex(commitment), secret, lz)
+	}
+	res.Class = fmt.Sprintf("cr-lz%d", lz/8*8)
+	return
+}
+
 // race <n>: the F8 situation through the public API.  Request A is being handled (endpoint 0 holds its
 // nonce lookup), request B passes the isConnecting check and queues; A then fails on every endpoint with a
 // nonce error, which cancels them all; B is handled with every endpoint context done.
@@ -944,6 +1035,8 @@ func exec(line string) (res h.Result) {
 		return execRace(w)
 	case "cfg":
 		return execCfg(w)
+	case "cr":
+		return execCR(w)
 	}
 	panic("bad case line")
 }
